@@ -20,7 +20,7 @@ rundemo() {
 # demos refer to the agent's worktree by path: rewrite a private copy to the scratch tree
 tmpd=$(mktemp -d /tmp/verif.seeddemo.XXXXXX)
 cp "$d"/* "$tmpd"/ 2>/dev/null
-sed -i "s#/tmp/r5_C[0-9][0-9]#$wt#g" "$tmpd"/*.py 2>/dev/null
+sed -i "s#/tmp/r[56]_C[0-9][0-9]#$wt#g" "$tmpd"/*.py 2>/dev/null
 dd="$d"; d="$tmpd"
 rundemo; base=$?
 if ! git -C "$wt" apply "$dd/patch.diff" 2>/tmp/seed_eval_apply.$$; then
